@@ -241,6 +241,24 @@ def sdo_xfer_inst(xf, tgt, N, pre=0, ptgt=6, dom=16, ubl=4, nseg=2, lose=0, bs=2
                     (', block size %d announced inside the partial acknowledges' % bsp if bsp else '') + ('' if not pre else ('; preceded by an arbitrary server state of phase %d (open on %s) and %s' % ((pre - 1) % 5, SDO_TGT[ptgt], 'a client abort' if pre <= 5 else ('NMT reset communication' if pre <= 10 else 'nothing else'))))))
 
 
+def seg_step_insts(tier, dirn):
+    out = []
+    for ds in ((600,) if tier == 'quick' else (600, 4000)):
+        combos = [(t, 0, 0) for t in (0, 1)] + ([(t, nf, 1) for t in (0, 1) for nf in range(7)] if dirn else [])
+        if tier == 'quick' and dirn:
+            combos = [(0, 0, 0), (1, 0, 0), (0, 0, 1), (1, 3, 1), (0, 6, 1), (1, 5, 1)]
+        for t, nf, c in combos:
+            defs = dict(NODE_DEFS)
+            defs.update({'DIRN': dirn, 'OD_DOM_SIZE': ds, 'CO_VERIF_SDO_BUF_SEG': 2, 'TB': t, 'NF': nf, 'CB': c})
+            uw = node_unwind(2, dom=8)
+            uw['harness'] = ds + 6
+            out.append(Inst('sdo_seg_step_%s_d%d_t%d%s' % ('dn' if dirn else 'up', ds, t, ('_n%d_c%d' % (nf, c)) if dirn else ''), 'sdo_seg_step.c', defs, unwind=22, unwindset=uw, objbits=10,
+                            harness_only=['DIRN', 'TB', 'NF', 'CB'], family='sdo_seg_step', weight=30,
+                            bounds='one %s segment (toggle %d%s) from an arbitrary mid-transfer state on a domain of symbolic size 1..%d: bytes done, announced size, payload symbolic; storage checked at a symbolic byte position' % (
+                                'download' if dirn else 'upload', t, (', %d unused bytes, last=%d' % (nf, c)) if dirn else '', ds)))
+    return out
+
+
 def c02(tier):
     out = []
     for t in (0, 1, 2, 3):
@@ -259,11 +277,12 @@ def c02(tier):
                     continue
                 out.append(sdo_xfer_inst(3, 6, N, dom=dom, nseg=ns, lose=lose, fill=f))
     out += sdo_two_servers(tier)
+    out += seg_step_insts(tier, 1)
     return out
 
 
 def c03(tier):
-    out = []
+    out = seg_step_insts(tier, 0)
     maxseg = 4 if tier == 'quick' else 5
     dom = 7 * maxseg
     fills = (1, 4, 7) if tier == 'quick' else (1, 2, 3, 4, 5, 6, 7)
